@@ -62,11 +62,19 @@ def c07(res, thorough):
 
 def c10(res, thorough):
     base_cov(res, ["memory orders", "FC wait strategies other than backoff", "std::deque / boost deque themselves",
-                   "the flat-combining kernel is judged by C23",
+                   "the flat-combining kernel is judged by C23; Algo/FC/KernelG is that kernel machine over an ARBITRARY deterministic sequential object (fc_apply = the object's step under the lock, result stored in the record): "
+                   "C10_fc_linearizable (Herlihy-Wing, pending operations handled, linearization point = the exec step on the operation's record, in general performed by another thread) and the corollary C10_fcdeque_linearizable (FCDeque without elimination, Spec.deque) hold for all schedules; "
+                   "tied by trace conformance on the real kernel driving a std::deque",
                    "Algo/FC/Batch is a hand transcription of FCDeque::fc_process / fc_apply (fixed batch: requests arriving during the walk are not modelled); C10_batch_refines / C10_session_refines / C10_collide_rule are theorems about it; "
                    "it is tied to the code by a differential run (the REAL fc_process / fc_apply / combining pass on hand-built publication lists against `cdsdriver fcbatch`, results, elimination-or-apply flag per record, final content and collision count compared) and by the deque client's histories under the elimination variants"],
-             partial=["linearizability of the concurrent FCDeque = batch theorem (proved) + kernel mutual exclusion / exactly-once (proved for the kernel model Algo/FC/Kernel, see C23) + the composition of the two, which is not a Lean theorem and is decided on explored schedules"])
-    lean_step(res, "CdsVerif.Props.C10", thorough)       # imports Algo/FC/Batch: the elimination pass and batch application, transcribed from fc_process/fc_apply
+             partial=["FCDeque WITH elimination under concurrency: the collide rule and 'a batch refines a permutation run by Spec.deque' are theorems about a fixed batch (tied by the differential run); lifting them to the concurrent publication list (requests arriving during the walk, both operations of a collided pair logged at the collision) is not proved and is decided by histories of the elimination variants"])
+    lean_step(res, ["CdsVerif.Props.C10", "CdsVerif.Props.C10FCLin"], thorough)       # Algo/FC/Batch (elimination pass, batch application) and Algo/FC/KernelG (kernel over an arbitrary sequential object)
+    from fckernel_pre import fckernel_pre
+    # tie A: the generic kernel machine instantiated with the deque object must accept real traces of the kernel driving a std::deque with FCDeque's operation codes
+    tie_A(res, "fckernel", "fckernelg", [
+        {"args": ["--container", "deque", "--mode", "mixed", "--threads", "4", "--ops", "4"], "cases": 12000 if thorough else 2000},
+        {"args": ["--container", "deque", "--mode", "cas", "--threads", "4", "--ops", "3"], "cases": 5000 if thorough else 800},
+        {"args": ["--container", "deque", "--mode", "enum1", "--threads", "3", "--ops", "2"], "cases": 8 if thorough else 3}], label="fckernel:deque", pre=fckernel_pre)
     # tie D for the batch model: real fc_process / fc_apply on hand-built publication lists vs Algo/FC/Batch (cdsdriver fcbatch)
     fcbatch.fcbatch_check(res, thorough, kinds=["deque"])
     tie_H(res, "deque", hist_runs(thorough, 3, 4, (8, 16), (2500, 30000)), ignore_oracle=FC_ORACLE)
@@ -277,6 +285,9 @@ def c14_body(res, thorough):
 
 def c15(res, thorough):
     setmap_check(res, thorough, "C15", "tree", mixed=(4000, 50000), spec="mapr", history_oracle=steps.minmax_oracle)
+    # two keys, four threads, CAS-biased schedules, STRICT map specification: the run that re-finds the skip-list fast-path defect of commit b95a3c3
+    # (erase answers 'not found' on a node another eraser has marked but not unlinked, find must then not find it): about 1 case in 1500 before the fix
+    tie_H(res, "tree", [{"args": ["--mode", "cas", "--threads", "4", "--ops", "4", "--variant", "iskipset_hp_named", "--keys", "2", "--spec", "map"], "cases": 100000 if thorough else 12000}], label="tree-skip2keys")
     # extract_min / extract_max racing with removal of the extreme element: skip lists, random schedules
     for v in ("skipset_hp", "skipset_gpi", "skipmap_gpb", "skipmap_dhp"):
         tie_H(res, "tree", [{"args": ["--mode", "random", "--threads", "3", "--ops", "4", "--variant", v, "--spec", "mapr"], "cases": 20000 if thorough else 2500}],
@@ -659,7 +670,7 @@ TABLE = {
     "C23": ("proof", c23),
     "C06": ("translation_validation", c06),
     "C07": ("proof", c07),
-    "C10": ("translation_validation", c10),
+    "C10": ("proof", c10),
     "C11": ("translation_validation", c11),
     "C25": ("proof", c25),
     "C22": ("proof", c22),
